@@ -660,8 +660,13 @@ def _transitref_rule(chk, prog):
             continue
         chk.analysed(fn)
 
-        def transfer(st, x):
-            if x.k == "call" and x.callee == "janet_unmarshal":
+        readers = set(g.name for g in prog.tus["ev.c"].funcs.values()
+                      if any(c2.callee == "janet_unmarshal" and any("JANET_MARSHAL_DECREF" in y.macro_names() for y in c2.walk()) or
+                             (c2.callee == "janet_unmarshal" and any(d.k == "vardecl" and d.kids and any("JANET_MARSHAL_DECREF" in y.macro_names() for y in d.kids[0].walk())
+                                                                      for d in g.nodes)) for c2 in g.calls()))
+
+        def transfer(st, x, readers=readers):
+            if x.k == "call" and (x.callee == "janet_unmarshal" or x.callee in readers):
                 return st | frozenset(["read"])
             if x.k == "call" and x.callee == "janet_marshal":
                 return st - frozenset(["read"])
@@ -682,6 +687,41 @@ def _transitref_rule(chk, prog):
                               "references that marshalling took on shared abstracts (thread channels, locks) are never dropped and "
                               "those objects are never released" % x.text()[:40])
     chk.floor(rule, 2, n)
+    # and nothing may come between packing a value and handing it on: an early return after a successful pack drops the
+    # packed message with the references it holds
+    fn = prog.tus["ev.c"].funcs.get("janet_channel_push_with_lock")
+    if fn is None:
+        raise AnalysisBroken("janet_channel_push_with_lock not found")
+    chk.analysed(fn)
+    HAND_ON = ("janet_q_push", "janet_chan_post", "janet_schedule", "make_read_result")
+
+    def t2(st, x):
+        if x.k == "call" and x.callee == "janet_chan_pack":
+            return st | {"packed"}
+        if x.k == "call" and x.callee in HAND_ON and any(is_ref(y, "x") for a in x.args for y in a.walk()):
+            return st - {"packed"}
+        if x.k == "asg" and x.kids[0].k == "mem" and x.kids[0].field == "argj":
+            return st - {"packed"}
+        return st
+
+    def e2(st, blk, succ, cond, truth):
+        c = flow.strip_not(cond, truth)
+        if c[0] is not None and c[0].k == "call" and c[0].callee == "janet_chan_pack" and c[1]:
+            return st - {"packed"}          # pack reported failure: nothing was packed
+        return st
+    IN2, OUT2, T2 = flow.forward_paths(fn, frozenset(), t2, e2)
+    for b, kind in flow.exits(fn):
+        if kind != "return" or b.id not in OUT2:
+            continue
+        chk.instance(rule)
+        if any("packed" in ps for ps in OUT2[b.id]):
+            where = b.term or (b.elems[-1] if b.elems else None)
+            chk.violation(rule, "ev.c", fn.name, "packed-then-dropped", where.loc if where is not None else fn.loc,
+                          "janet_channel_push_with_lock can return after janet_chan_pack succeeded without queueing, posting or "
+                          "delivering the packed value (the `closed` test comes after the pack): every give to a closed thread "
+                          "channel leaks the message and the references it holds")
+        else:
+            chk.ok(rule, "janet_channel_push_with_lock: a packed value is always handed on before this return")
 
 
 def _closeresult_rule(chk, prog):
@@ -992,6 +1032,7 @@ def run(chk):   # noqa
     _packflags_rule(chk, prog)
     _lockorder_rule(chk, prog)
     _rawtypes_rule(chk, prog)
+    _decrefzero_rule(chk, prog)
 
 
 def _sweepreset_rule(chk, prog):
@@ -1284,3 +1325,41 @@ def _rawtypes_rule(chk, prog):
                       "such a message is consumed from the queue and then reported as an error (or read as bytes it does not contain)" % (
                           sorted(raw_p), sorted(raw_u), sorted(raw_p - raw_u), sorted(raw_u - raw_p)))
     chk.floor(rule, 1)
+
+
+def _decrefzero_rule(chk, prog):
+    """Shared abstracts are reference counted across threads; whoever takes the count to zero has to run the
+    finalizer and free the object, because nobody else will.  A decrement whose result is thrown away is right only
+    where another reference is known to remain."""
+    rule = "C08-DECREFZERO"
+    chk.rule(rule, "the result of janet_abstract_decref is tested for zero (and the object released then), except where a remaining reference was just established")
+    n = 0
+    full = Program.load("default", units=["marsh.c", "gc.c", "ev.c", "abstract.c"])
+    for fn in full.all_funcs():
+        for c in fn.calls("janet_abstract_decref"):
+            n += 1
+            chk.instance(rule)
+            chk.analysed(fn)
+            p_ = c.parent
+            while p_ is not None and p_.k in ("cast", "paren"):
+                p_ = p_.parent
+            tested = p_ is not None and p_.k == "bin" and p_.op in ("==", "!=", "<=", ">") 
+            if tested:
+                chk.ok(rule, "%s: `%s` tested" % (fn.name, c.text()[:40]))
+                continue
+            # untested: acceptable where the path has just found the object in this heap's table (its reference remains)
+            IN, T = flow.condition_facts(fn, cap=24)
+            ok = False
+            for x, S in flow.states_at(fn, IN, T):
+                if x is c:
+                    ok = bool(S) and all(any(op in ("==", "!=") and ln is not None and
+                                             any(y.k == "ref" and y.name == "check" for y in ln.walk()) or
+                                             (ln is not None and any("threaded_abstracts" in z.text() for z in ln.walk()))
+                                             for (op, l, r, toks, ln, rn) in ps) for ps in S)
+            if ok:
+                chk.ok(rule, "%s: `%s` - this heap's own reference was just found in its table" % (fn.name, c.text()[:40]))
+            else:
+                chk.violation(rule, fn.tu.name, fn.name, "result-dropped", c.loc,
+                              "`%s` drops a reference and ignores whether it was the last one: when a discarded message held the only "
+                              "reference to a thread channel or lock, that object is never finalized or freed" % c.text()[:40])
+    chk.floor(rule, 3, n)
